@@ -42,6 +42,12 @@ pub fn solve<'a>(sn: Rc<RefCell<SolutionNode<'a>>>) -> String {
     cancel_timer(timer);
 
     if query_stopped() {
+        // The search was cut short: goals were skipped (a cut may not
+        // have been reached, a clause may have been left half-way).
+        // If the same query is asked again, it must not be resumed
+        // from there; it would produce answers which the query does
+        // not have. The query is closed.
+        sn.borrow_mut().no_backtracking = true;
         return format!("Query timed out after {} \
                         milliseconds.", S_TIMEOUT);
     }
